@@ -173,6 +173,12 @@ func (w *bannerResponseWriter) WriteHeader(statusCode int) {
 	if w.wroteHeader {
 		return
 	}
+	if statusCode >= 100 && statusCode <= 199 && statusCode != http.StatusSwitchingProtocols {
+		// Informational (1xx) responses are interim; the decision is made
+		// on the final response that follows them.
+		w.wrapped.WriteHeader(statusCode)
+		return
+	}
 	w.wroteHeader = true
 	if !isFrameableHTMLResponse(statusCode, w.Header()) {
 		w.wrapped.WriteHeader(statusCode)
